@@ -26,6 +26,8 @@ def cases(tier, seed):
         for mo in models:
             for mom in moms:
                 for N in Ns:
+                    if tier == "quick" and mo == "chain" and (N == 1 or mom == 0.5):
+                        continue  # the chain is the slowest case: quick keeps N=2 with symbolic and zero momentum
                     out.append(dict(kind="ema", act=a, model=mo, momentum=mom, N=N))
     return out
 
